@@ -88,6 +88,13 @@ CLAIMED["C12"] = ("proof", "Hand model Model/Table.v of Standard._get_x_y and th
     "against the parsed csv/text output of the real command line on generated files for all 13 axes, -acc, -leg, -f; descriptors, "
     "threshold rows and the 6/4 significant digits checked numerically (PARTIAL: %g formatting itself is library behaviour).",
     "7 C12", "Coq proof over hand model + correspondence check")
+CLAIMED["C09"] = ("proof", "Hand model Model/TextParse.v of verif.input.Text on lexed lines with axiom-free theorems for files of any size: the "
+    "dimensions are exactly the coordinates occurring in the rows (ascending, no duplicates); every cube cell is the value of the row "
+    "with those coordinates (the last one for repeated coordinates), absent combinations are missing; row order is irrelevant for unique "
+    "coordinates; column order is irrelevant for distinct column names (every lookup the reader makes); first row fixes location "
+    "metadata; column classification (p<t> vs pit, e<m> vs elev, q<q>, offset = leadtime) and missing tokens by computation. Tie: the "
+    "model on the lexed tokens vs verif.input.Text on generated files (random layouts), plus the abstract dataset as falsifier.",
+    "7 C09", "Coq proof over hand model + correspondence check")
 PENDING = {}
 
 def main():
